@@ -269,13 +269,10 @@ class TimeStamp(TdmsType):
         self.value = value
         epoch_delta = value - self._tdms_epoch
 
-        seconds = int(epoch_delta / np.timedelta64(1, 's'))
-        remainder = epoch_delta - np.timedelta64(seconds, 's')
-        zero_delta = np.timedelta64(0, 's')
-        if remainder < zero_delta:
-            remainder = np.timedelta64(1, 's') + remainder
-            seconds = seconds - 1
-        microseconds = int(remainder / np.timedelta64(1, 'us'))
+        # Use exact integer arithmetic, float division loses precision for dates far from the epoch.
+        # Floor division also gives a positive remainder for times before the epoch.
+        total_microseconds = int(epoch_delta.astype('timedelta64[us]').astype(np.int64))
+        seconds, microseconds = divmod(total_microseconds, 10 ** 6)
         second_fractions = int(microseconds * self._fractions_per_microsecond)
         self.bytes = _struct_pack('<Qq', second_fractions, seconds)
 
